@@ -268,3 +268,1335 @@ Proof.
   subst vals. destruct (nodupb (map fst kd)) eqn:En; [|reflexivity].
   apply nodupb_spec in En. contradiction.
 Qed.
+
+(* ================================================================== *)
+(* 4. members: the Ts constructor, restrict, get                        *)
+
+Lemma mem_nil x : mem x [] = false.
+Proof. reflexivity. Qed.
+
+Lemma filter_nil_iff {A} (p : A -> bool) l : filter p l = [] <-> Forall (fun x => p x = false) l.
+Proof.
+  induction l as [|x r IH]; simpl; [split; [constructor|reflexivity]|].
+  destruct (p x) eqn:E.
+  - split; [discriminate|]. intros H. inversion H; subst. congruence.
+  - rewrite IH. split; [intros; constructor; assumption|intros H; inversion H; assumption].
+Qed.
+
+(* Ts(t, time_support = s) for sorted t: the samples inside s; the support is s, or empty when t was *)
+Lemma mk_ts_t t s : sortedZ t -> canonical s -> m_t (mk_ts t s) = filter (fun x => mem x s) t.
+Proof.
+  intros Hs Hc. destruct t as [|x r]; [reflexivity|]. unfold mk_ts, m_t. cbn [fst].
+  apply restrict_ts_spec; assumption.
+Qed.
+
+Lemma mk_ts_wf t s : sortedZ t -> canonical s -> wf_member (mk_ts t s).
+Proof.
+  intros Hs Hc. split.
+  - rewrite mk_ts_t by assumption. apply filter_sortedZ. exact Hs.
+  - destruct t; [exact I|exact Hc].
+Qed.
+
+Lemma mk_ts_within t s : sortedZ t -> canonical s -> within s (mk_ts t s).
+Proof.
+  intros Hs Hc. unfold within. rewrite mk_ts_t by assumption.
+  apply Forall_forall. intros x Hx. apply filter_In in Hx. tauto.
+Qed.
+
+(* restrict: exactly the samples inside ep; normal form of the support *)
+Lemma ts_restrict_t m ep : sortedZ (m_t m) -> canonical ep ->
+  m_t (ts_restrict m ep) = filter (fun x => mem x ep) (m_t m).
+Proof.
+  intros Hs Hc. unfold ts_restrict.
+  rewrite mk_ts_t; [|rewrite restrict_ts_spec by assumption; apply filter_sortedZ; exact Hs|exact Hc].
+  rewrite restrict_ts_spec by assumption. rewrite filter_filter.
+  apply filter_ext. intros x. destruct (mem x ep); reflexivity.
+Qed.
+
+Lemma ts_restrict_wf m ep : sortedZ (m_t m) -> canonical ep -> wf_member (ts_restrict m ep).
+Proof.
+  intros Hs Hc. unfold ts_restrict. apply mk_ts_wf; [|exact Hc].
+  rewrite restrict_ts_spec by assumption. apply filter_sortedZ. exact Hs.
+Qed.
+
+Lemma ts_restrict_within m ep : sortedZ (m_t m) -> canonical ep -> within ep (ts_restrict m ep).
+Proof.
+  intros Hs Hc. unfold ts_restrict. apply mk_ts_within; [|exact Hc].
+  rewrite restrict_ts_spec by assumption. apply filter_sortedZ. exact Hs.
+Qed.
+
+Lemma mk_ts_normal_restricted t s : sortedZ t -> canonical s -> Forall (fun x => mem x s = true) t ->
+  normal s (mk_ts t s) /\ mk_ts t s = (t, match t with [] => [] | _ => s end).
+Proof.
+  intros Hs Hc Hf. destruct t as [|x r]; [split; reflexivity|].
+  unfold mk_ts. rewrite restrict_ts_spec by assumption. rewrite filter_all by exact Hf.
+  split; reflexivity.
+Qed.
+
+Lemma ts_restrict_normal m ep : sortedZ (m_t m) -> canonical ep -> normal ep (ts_restrict m ep).
+Proof.
+  intros Hs Hc. unfold ts_restrict.
+  apply mk_ts_normal_restricted; [| exact Hc |].
+  - rewrite restrict_ts_spec by assumption. apply filter_sortedZ. exact Hs.
+  - rewrite restrict_ts_spec by assumption. apply Forall_forall. intros x Hx. apply filter_In in Hx. tauto.
+Qed.
+
+(* a member already restricted to s is left alone by a further restriction to s *)
+Lemma ts_restrict_id m s : sortedZ (m_t m) -> canonical s -> within s m -> normal s m -> ts_restrict m s = m.
+Proof.
+  intros Hs Hc Hw Hn. unfold ts_restrict.
+  rewrite restrict_ts_spec by assumption. rewrite filter_all by exact Hw.
+  destruct (mk_ts_normal_restricted (m_t m) s Hs Hc Hw) as [_ E]. rewrite E.
+  destruct m as [t ms]. unfold normal, m_t, m_sup in *. cbn [fst snd] in *.
+  destruct t; subst; reflexivity.
+Qed.
+
+(* get(a, b): the samples in the window *)
+Lemma ts_get_t m a b s : sortedZ (m_t m) -> canonical s -> within s m -> normal s m ->
+  m_t (ts_get m a b) = filter (fun t => (a <=? t) && (t <=? b)) (m_t m)
+  /\ wf_member (ts_get m a b) /\ within s (ts_get m a b) /\ normal s (ts_get m a b).
+Proof.
+  intros Hs Hc Hw Hn. unfold ts_get.
+  rewrite get_times_spec by exact Hs.
+  set (w := filter (fun t => (a <=? t) && (t <=? b)) (m_t m)).
+  assert (Hsw : sortedZ w) by (apply filter_sortedZ; exact Hs).
+  assert (Hww : Forall (fun x => mem x s = true) w).
+  { apply Forall_forall. intros x Hx. apply filter_In in Hx. destruct Hx as [Hx _].
+    unfold within in Hw. rewrite Forall_forall in Hw. apply Hw. exact Hx. }
+  destruct w as [|x r] eqn:Ew.
+  - cbn. repeat split; try exact I; constructor.
+  - assert (Hms : m_sup m = s).
+    { unfold normal in Hn. destruct (m_t m) as [|y q] eqn:Em; [|exact Hn]. subst w. discriminate. }
+    rewrite Hms. rewrite <- Ew in *.
+    destruct (mk_ts_normal_restricted w s Hsw Hc Hww) as [Hnn E].
+    split; [rewrite E; reflexivity|]. split; [apply mk_ts_wf; assumption|].
+    split; [apply mk_ts_within; assumption|exact Hnn].
+Qed.
+
+(* ================================================================== *)
+(* 5. the support: given, else the union of the members' supports       *)
+
+Theorem group_support_given data s bypass ht g :
+  mk_group data (Some s) bypass ht = Some g -> g_sup g = s.
+Proof.
+  intros H. destruct (mk_group_inv _ _ _ _ _ H) as (kd & s' & _ & _ & Hs & ->).
+  simpl in Hs. inversion Hs. reflexivity.
+Qed.
+
+(* x is farther than 1 us from every endpoint of every set of l *)
+Definition farl (x : Z) (l : list iset) : Prop :=
+  forall A p, In A l -> is_endpoint p A -> p + us < x \/ x < p - us.
+
+Lemma canonical_proper A : canonical A -> Forall (fun I => fst I < snd I) A.
+Proof.
+  induction A as [|[s e] r IH]; intros H; [constructor|].
+  constructor; [simpl in *; tauto|]. apply IH. eapply canonical_tail; exact H.
+Qed.
+
+Lemma concat_proper l : Forall canonical l -> Forall (fun I => fst I < snd I) (concat l).
+Proof.
+  induction l as [|A r IH]; intros H; simpl; [constructor|].
+  inversion H; subst. apply Forall_app. split; [apply canonical_proper; assumption|apply IH; assumption].
+Qed.
+
+Lemma mem_concat x l : mem x (concat l) = existsb (mem x) l.
+Proof. induction l as [|A r IH]; simpl; [reflexivity|]. rewrite mem_app, IH. reflexivity. Qed.
+
+Lemma existsb_map' {A B} (f : A -> B) (p : B -> bool) l : existsb p (map f l) = existsb (fun x => p (f x)) l.
+Proof. induction l as [|x r IH]; simpl; [reflexivity|]. rewrite IH. reflexivity. Qed.
+
+Lemma union_supports_canonical l : Forall canonical l -> canonical (union_supports l).
+Proof.
+  intros H. destruct l as [|a [|b [|c r]]]; simpl.
+  - exact I.
+  - inversion H; assumption.
+  - apply mk_iset_pairs_canonical.
+  - apply mk_iset_pairs_canonical.
+Qed.
+
+(* the union: exact for three members or more (n-ary kernel), and for two members at every instant
+   farther than 1 us from the endpoints (the constructor trims where the two supports touch) *)
+Theorem union_supports_mem l x : Forall canonical l -> farl x l ->
+  mem x (union_supports l) = existsb (mem x) l.
+Proof.
+  intros H Hf. destruct l as [|a [|b [|c r]]].
+  - reflexivity.
+  - simpl. rewrite orb_false_r. reflexivity.
+  - inversion H as [|? ? Ha H']; subst. inversion H' as [|? ? Hb _]; subst.
+    cbn [union_supports existsb]. rewrite orb_false_r.
+    apply (wrapper_union_mem a b x Ha Hb).
+    intros p [Hp|Hp]; [apply (Hf a p)|apply (Hf b p)]; simpl; auto.
+  - set (l := a :: b :: c :: r) in *.
+    assert (E : union_supports l = mk_iset_pairs (k_union_n (concat l))) by reflexivity.
+    rewrite E. rewrite mk_iset_canonical_id by (apply union_n_canonical, concat_proper; exact H).
+    rewrite union_n_mem by (apply concat_proper; exact H). apply mem_concat.
+Qed.
+
+Theorem union_supports_mem_exact l x : Forall canonical l -> (3 <= length l)%nat ->
+  mem x (union_supports l) = existsb (mem x) l.
+Proof.
+  intros H Hl. destruct l as [|a [|b [|c r]]]; simpl in Hl; try lia.
+  set (l := a :: b :: c :: r) in *.
+  assert (E : union_supports l = mk_iset_pairs (k_union_n (concat l))) by reflexivity.
+  rewrite E. rewrite mk_iset_canonical_id by (apply union_n_canonical, concat_proper; exact H).
+  rewrite union_n_mem by (apply concat_proper; exact H). apply mem_concat.
+Qed.
+
+Definition raw_wf (sup : option iset) (r : rawmember) : Prop :=
+  match r with RObj m => wf_member m | RArr t => sortedZ t end.
+
+Lemma ts_default_wf t : sortedZ t -> wf_member (ts_default t).
+Proof.
+  intros H. destruct t as [|x r]; [split; exact I|]. split; [exact H|].
+  unfold ts_default, m_sup. cbn [snd]. apply mk_iset_canonical. reflexivity.
+Qed.
+
+Lemma to_member_wf sup r : raw_wf sup r -> match sup with Some s => canonical s | None => True end ->
+  wf_member (to_member sup r).
+Proof.
+  intros H Hs. destruct r as [m|t]; simpl in *; [exact H|].
+  destruct sup as [s|]; [apply mk_ts_wf; assumption|apply ts_default_wf; exact H].
+Qed.
+
+(* the members as converted and key-sorted, before any restriction *)
+Definition supplied (data : list (rawkey * (Z * rawmember))) (sup : option iset) (es : list entry) : Prop :=
+  exists kd, conv_keys data = Some kd /\ es = sort_entries (map (conv_entry sup) kd).
+
+Lemma supplied_wf data sup es :
+  supplied data sup es -> Forall (fun d => raw_wf sup (snd (snd d))) data ->
+  match sup with Some s => canonical s | None => True end ->
+  Forall (fun e => wf_member (e_mem e)) es.
+Proof.
+  intros (kd & Hk & ->) Hd Hs.
+  apply Forall_forall. intros e He.
+  apply (Permutation_in _ (sort_entries_perm _)) in He.
+  apply in_map_iff in He. destruct He as (d & <- & Hd').
+  unfold e_mem, conv_entry. cbn [snd]. apply to_member_wf; [|exact Hs].
+  destruct (conv_keys_spec _ _ Hk) as [_ Hsnd].
+  assert (Hin : In (snd d) (map snd data)) by (rewrite <- Hsnd; apply in_map; exact Hd').
+  apply in_map_iff in Hin. destruct Hin as (d0 & E & Hd0).
+  rewrite Forall_forall in Hd. specialize (Hd d0 Hd0). rewrite E in Hd. exact Hd.
+Qed.
+
+Theorem group_support_union data bypass ht g :
+  mk_group data None bypass ht = Some g ->
+  Forall (fun d => raw_wf None (snd (snd d))) data ->
+  exists es, supplied data None es
+    /\ g_sup g = union_supports (map (fun e => m_sup (e_mem e)) es)
+    /\ g_sup g <> [] /\ canonical (g_sup g)
+    /\ (forall x, farl x (map (fun e => m_sup (e_mem e)) es) ->
+                  mem x (g_sup g) = existsb (fun e => mem x (m_sup (e_mem e))) es)
+    /\ ((3 <= length es)%nat -> forall x, mem x (g_sup g) = existsb (fun e => mem x (m_sup (e_mem e))) es).
+Proof.
+  intros H Hd. destruct (mk_group_inv _ _ _ _ _ H) as (kd & s & Hk & Hn & Hs & ->).
+  set (es := sort_entries (map (conv_entry None) kd)) in *.
+  assert (Hsup : supplied data None es) by (exists kd; split; [exact Hk|reflexivity]).
+  pose proof (supplied_wf data None es Hsup Hd I) as Hwf.
+  assert (Hcan : Forall canonical (map (fun e => m_sup (e_mem e)) es)).
+  { apply Forall_forall. intros A HA. apply in_map_iff in HA. destruct HA as (e & <- & He).
+    rewrite Forall_forall in Hwf. apply (Hwf e He). }
+  exists es. split; [exact Hsup|].
+  unfold chosen_support in Hs. unfold g_sup. cbn [fst snd].
+  destruct (union_supports (map (fun e => m_sup (e_mem e)) es)) as [|I0 u] eqn:Eu; [discriminate|].
+  inversion Hs; subst s. clear Hs.
+  split; [reflexivity|]. split; [discriminate|].
+  split; [rewrite <- Eu; apply union_supports_canonical; exact Hcan|].
+  split.
+  - intros x Hf. rewrite <- Eu, (union_supports_mem _ x Hcan Hf), existsb_map'. reflexivity.
+  - intros Hl x. rewrite <- Eu, (union_supports_mem_exact _ x Hcan), existsb_map'; [reflexivity|].
+    rewrite map_length. exact Hl.
+Qed.
+
+(* ================================================================== *)
+(* 6. members are restricted to the support (unless the caller opts out); rate *)
+
+Lemma Forall_map_members (P : entry -> Prop) f es :
+  Forall (fun e => P (e_key e, (e_tag e, f (e_mem e)))) es -> Forall P (map_members f es).
+Proof. intros H. unfold map_members. apply Forall_forall. intros e' He'. apply in_map_iff in He'.
+  destruct He' as (e & <- & He). rewrite Forall_forall in H. apply H. exact He. Qed.
+
+Theorem group_members data sup bypass ht g :
+  mk_group data sup bypass ht = Some g ->
+  exists es, supplied data sup es /\ chosen_support sup es = Some (g_sup g)
+    /\ g_entries g = if bypass then es else map (restrict_entry (g_sup g)) es.
+Proof.
+  intros H. destruct (mk_group_inv _ _ _ _ _ H) as (kd & s & Hk & Hn & Hs & ->).
+  exists (sort_entries (map (conv_entry sup) kd)). split; [exists kd; auto|].
+  split; [exact Hs|]. unfold g_entries, g_sup. cbn [fst snd]. destruct bypass; reflexivity.
+Qed.
+
+Lemma restrict_entry_spec s e : sortedZ (m_t (e_mem e)) -> canonical s ->
+  e_key (restrict_entry s e) = e_key e /\ e_tag (restrict_entry s e) = e_tag e
+  /\ m_t (e_mem (restrict_entry s e)) = filter (fun x => mem x s) (m_t (e_mem e))
+  /\ wf_member (e_mem (restrict_entry s e)) /\ within s (e_mem (restrict_entry s e)) /\ normal s (e_mem (restrict_entry s e)).
+Proof.
+  intros Hs Hc. unfold restrict_entry, e_key, e_tag, e_mem. cbn [fst snd].
+  split; [reflexivity|]. split; [reflexivity|].
+  split; [apply ts_restrict_t; assumption|].
+  split; [apply ts_restrict_wf; assumption|].
+  split; [apply ts_restrict_within; assumption|apply ts_restrict_normal; assumption].
+Qed.
+
+(* the invariants established by a construction *)
+Lemma supplied_keys_incr data sup es : supplied data sup es ->
+  (exists kd, conv_keys data = Some kd /\ NoDup (map fst kd)) -> incr (map e_key es).
+Proof.
+  intros (kd & Hk & ->) (kd' & Hk' & Hn). rewrite Hk in Hk'. inversion Hk'; subst kd'.
+  apply sort_entries_incr. rewrite conv_entry_keys. exact Hn.
+Qed.
+
+Lemma map_restrict_entry_keys s es : map e_key (map (restrict_entry s) es) = map e_key es.
+Proof. rewrite map_map. apply map_ext. intros e. reflexivity. Qed.
+
+Theorem mk_group_invariants data sup bypass ht g :
+  mk_group data sup bypass ht = Some g ->
+  Forall (fun d => raw_wf sup (snd (snd d))) data ->
+  match sup with Some s => canonical s | None => True end ->
+  WFg g /\ (bypass = false -> Rg g).
+Proof.
+  intros H Hd Hs.
+  destruct (mk_group_inv _ _ _ _ _ H) as (kd & s & Hk & Hn & Hcs & Hg).
+  set (es := sort_entries (map (conv_entry sup) kd)) in *.
+  assert (Hsup : supplied data sup es) by (exists kd; auto).
+  pose proof (supplied_wf data sup es Hsup Hd Hs) as Hwf.
+  assert (Hinc : incr (map e_key es)) by (apply (supplied_keys_incr data sup es Hsup); eauto).
+  assert (Hcan : canonical s).
+  { destruct sup as [s0|]; simpl in Hcs.
+    - inversion Hcs; subst. exact Hs.
+    - destruct (union_supports (map (fun e => m_sup (e_mem e)) es)) as [|I0 u] eqn:Eu; [discriminate|].
+      inversion Hcs; subst. rewrite <- Eu. apply union_supports_canonical.
+      apply Forall_forall. intros A HA. apply in_map_iff in HA. destruct HA as (e & <- & He).
+      rewrite Forall_forall in Hwf. apply (Hwf e He). }
+  subst g. destruct bypass.
+  - split; [|discriminate]. unfold WFg, g_keys, g_entries, g_sup. cbn [fst snd]. auto.
+  - split.
+    + unfold WFg, g_keys, g_entries, g_sup. cbn [fst snd].
+      split; [rewrite map_members_keys; exact Hinc|]. split; [exact Hcan|].
+      apply Forall_map_members. apply Forall_forall. intros e He. unfold e_mem. cbn [snd].
+      rewrite Forall_forall in Hwf. apply ts_restrict_wf; [apply (Hwf e He)|exact Hcan].
+    + intros _. unfold Rg, g_entries, g_sup. cbn [fst snd].
+      apply Forall_map_members. apply Forall_forall. intros e He. unfold e_mem. cbn [snd].
+      rewrite Forall_forall in Hwf.
+      split; [apply ts_restrict_within|apply ts_restrict_normal]; try exact Hcan; apply (Hwf e He).
+Qed.
+
+(* every member of a checked construction: the supplied member's samples that lie in the support *)
+Theorem group_members_restricted data sup ht g :
+  mk_group data sup false ht = Some g ->
+  Forall (fun d => raw_wf sup (snd (snd d))) data ->
+  match sup with Some s => canonical s | None => True end ->
+  exists es, supplied data sup es
+    /\ g_entries g = map (restrict_entry (g_sup g)) es
+    /\ Forall (fun e => m_t (e_mem (restrict_entry (g_sup g) e)) = filter (fun x => mem x (g_sup g)) (m_t (e_mem e))
+                        /\ within (g_sup g) (e_mem (restrict_entry (g_sup g) e))) es.
+Proof.
+  intros H Hd Hs. destruct (group_members _ _ _ _ _ H) as (es & Hsup & Hcs & He).
+  destruct (mk_group_invariants _ _ _ _ _ H Hd Hs) as [(_ & Hcan & _) _].
+  pose proof (supplied_wf data sup es Hsup Hd Hs) as Hwf.
+  exists es. split; [exact Hsup|]. split; [exact He|].
+  apply Forall_forall. intros e Hin. rewrite Forall_forall in Hwf.
+  destruct (restrict_entry_spec (g_sup g) e (proj1 (Hwf e Hin)) Hcan) as (_ & _ & Ht & _ & Hw & _).
+  split; assumption.
+Qed.
+
+(* rate = number of samples / total duration of the group's support, for a member with a sample *)
+Lemma tot_length_pos A : canonical A -> A <> [] -> 0 < tot_length A.
+Proof.
+  intros Hc Hn. destruct (canonical_canon A Hc) as [lo Hlo]. clear Hc.
+  revert lo Hlo Hn. induction A as [|[s e] r IH]; intros lo Hlo Hn; [congruence|].
+  destruct Hlo as (H1 & H2 & H3). simpl. destruct r as [|I0 r'].
+  - simpl. lia.
+  - assert (0 < tot_length (I0 :: r')) by (eapply IH; [exact H3|discriminate]). lia.
+Qed.
+
+Theorem group_rate g e :
+  canonical (g_sup g) -> Rg g -> In e (g_entries g) -> m_t (e_mem e) <> [] ->
+  0 < tot_length (g_sup g)
+  /\ rate (e_mem e) = Some (length (m_t (e_mem e)), tot_length (g_sup g)).
+Proof.
+  intros Hc HR Hin Hne. unfold Rg in HR. rewrite Forall_forall in HR. destruct (HR e Hin) as [Hw Hn].
+  assert (Hms : m_sup (e_mem e) = g_sup g).
+  { unfold normal in Hn. destruct (m_t (e_mem e)); [congruence|exact Hn]. }
+  assert (Hnn : g_sup g <> []).
+  { intros E. unfold within in Hw. destruct (m_t (e_mem e)) as [|x r]; [congruence|].
+    inversion Hw; subst. rewrite E in *. discriminate. }
+  pose proof (tot_length_pos _ Hc Hnn) as Hp. split; [exact Hp|].
+  unfold rate. rewrite Hms. destruct (tot_length (g_sup g) <=? 0) eqn:E; [lia|reflexivity].
+Qed.
+
+(* ================================================================== *)
+(* 7. re-construction from existing entries                             *)
+
+Lemma regroup_map_id sup (es : list entry) :
+  map (conv_entry sup) (map (fun e => (e_key e, (e_tag e, RObj (e_mem e)))) es) = es.
+Proof.
+  rewrite map_map. rewrite <- (map_id es) at 2. apply map_ext. intros e.
+  unfold conv_entry. cbn [fst snd to_member]. apply entry_eta.
+Qed.
+
+Lemma regroup_inv es sup bypass ht g :
+  regroup es sup bypass ht = Some g ->
+  NoDup (map e_key es)
+  /\ exists s, chosen_support sup (sort_entries es) = Some s
+     /\ g = ((if bypass then sort_entries es else map_members (fun m => ts_restrict m s) (sort_entries es)), (s, ht)).
+Proof.
+  unfold regroup. intros H. destruct (mk_group_inv _ _ _ _ _ H) as (kd & s & Hk & Hn & Hs & Hg).
+  rewrite conv_keys_ints in Hk. inversion Hk; subst kd. clear Hk.
+  rewrite regroup_map_id in *.
+  split.
+  - rewrite map_map in Hn. exact Hn.
+  - exists s. split; assumption.
+Qed.
+
+Lemma regroup_some es sup bypass ht s :
+  NoDup (map e_key es) -> chosen_support sup (sort_entries es) = Some s ->
+  regroup es sup bypass ht
+  = Some ((if bypass then sort_entries es else map_members (fun m => ts_restrict m s) (sort_entries es)), (s, ht)).
+Proof.
+  intros Hn Hs. unfold regroup, mk_group. rewrite conv_keys_ints.
+  assert (E : map fst (map (fun e : entry => (e_key e, (e_tag e, RObj (e_mem e)))) es) = map e_key es).
+  { rewrite map_map. reflexivity. }
+  rewrite E. apply nodupb_spec in Hn. rewrite Hn. cbn [negb]. cbv zeta.
+  rewrite regroup_map_id. rewrite Hs. reflexivity.
+Qed.
+
+(* invariants of a re-construction from well-formed entries *)
+Lemma regroup_invariants es s bypass ht g :
+  regroup es (Some s) bypass ht = Some g -> canonical s ->
+  Forall (fun e => wf_member (e_mem e)) es ->
+  (bypass = true -> Forall (fun e => within s (e_mem e) /\ normal s (e_mem e)) es) ->
+  WFg g /\ Rg g /\ g_sup g = s /\ g_hastag g = ht
+  /\ (forall e', In e' (g_entries g) <-> exists e, In e es /\ e' = if bypass then e else restrict_entry s e).
+Proof.
+  intros H Hc Hwf Hby. destruct (regroup_inv _ _ _ _ _ H) as (Hn & s' & Hs & ->).
+  simpl in Hs. inversion Hs; subst s'. clear Hs.
+  assert (Hperm : forall e, In e (sort_entries es) <-> In e es).
+  { intros e. split; apply Permutation_in; [apply sort_entries_perm|apply Permutation_sym, sort_entries_perm]. }
+  assert (Hinc : incr (map e_key (sort_entries es))) by (apply sort_entries_incr; exact Hn).
+  assert (Hwf' : Forall (fun e => wf_member (e_mem e)) (sort_entries es)).
+  { apply Forall_forall. intros e He. rewrite Forall_forall in Hwf. apply Hwf. apply Hperm. exact He. }
+  unfold WFg, Rg, g_keys, g_entries, g_sup, g_hastag. cbn [fst snd].
+  destruct bypass.
+  - specialize (Hby eq_refl).
+    split; [auto|]. split.
+    + apply Forall_forall. intros e He. rewrite Forall_forall in Hby. apply Hby. apply Hperm. exact He.
+    + split; [reflexivity|]. split; [reflexivity|].
+      intros e'. rewrite Hperm. split; [intros; exists e'; auto|intros (e & He & ->); exact He].
+  - rewrite Forall_forall in Hwf'.
+    split; [|split; [|split; [reflexivity|split; [reflexivity|]]]].
+    + split; [rewrite map_members_keys; exact Hinc|]. split; [exact Hc|].
+      apply Forall_map_members. apply Forall_forall. intros e He. unfold e_mem. cbn [snd].
+      apply ts_restrict_wf; [apply (Hwf' e He)|exact Hc].
+    + apply Forall_map_members. apply Forall_forall. intros e He. unfold e_mem. cbn [snd].
+      split; [apply ts_restrict_within|apply ts_restrict_normal]; try exact Hc; apply (Hwf' e He).
+    + intros e'. unfold map_members. rewrite in_map_iff. split.
+      * intros (e & <- & He). exists e. split; [apply Hperm; exact He|reflexivity].
+      * intros (e & He & ->). exists e. split; [reflexivity|apply Hperm; exact He].
+Qed.
+
+(* re-construction without a given support, members checked *)
+Lemma regroup_invariants_union es ht g :
+  regroup es None false ht = Some g ->
+  Forall (fun e => wf_member (e_mem e)) es ->
+  WFg g /\ Rg g /\ g_hastag g = ht
+  /\ g_sup g = union_supports (map (fun e => m_sup (e_mem e)) (sort_entries es)) /\ g_sup g <> []
+  /\ (forall e', In e' (g_entries g) <-> exists e, In e es /\ e' = restrict_entry (g_sup g) e).
+Proof.
+  intros H Hwf. destruct (regroup_inv _ _ _ _ _ H) as (Hn & s & Hs & ->).
+  assert (Hperm : forall e, In e (sort_entries es) <-> In e es).
+  { intros e. split; apply Permutation_in; [apply sort_entries_perm|apply Permutation_sym, sort_entries_perm]. }
+  assert (Hinc : incr (map e_key (sort_entries es))) by (apply sort_entries_incr; exact Hn).
+  assert (Hwf' : Forall (fun e => wf_member (e_mem e)) (sort_entries es)).
+  { apply Forall_forall. intros e He. rewrite Forall_forall in Hwf. apply Hwf. apply Hperm. exact He. }
+  unfold chosen_support in Hs.
+  destruct (union_supports (map (fun e => m_sup (e_mem e)) (sort_entries es))) as [|I0 u] eqn:Eu; [discriminate|].
+  inversion Hs; subst s. clear Hs.
+  assert (Hc : canonical (I0 :: u)).
+  { rewrite <- Eu. apply union_supports_canonical. apply Forall_forall. intros A HA.
+    apply in_map_iff in HA. destruct HA as (e & <- & He). rewrite Forall_forall in Hwf'. apply (Hwf' e He). }
+  unfold WFg, Rg, g_keys, g_entries, g_sup, g_hastag. cbn [fst snd].
+  rewrite Forall_forall in Hwf'.
+  split; [|split; [|split; [reflexivity|split; [reflexivity|split; [discriminate|]]]]].
+  - split; [rewrite map_members_keys; exact Hinc|]. split; [exact Hc|].
+    apply Forall_map_members. apply Forall_forall. intros e He. unfold e_mem. cbn [snd].
+    apply ts_restrict_wf; [apply (Hwf' e He)|exact Hc].
+  - apply Forall_map_members. apply Forall_forall. intros e He. unfold e_mem. cbn [snd].
+    split; [apply ts_restrict_within|apply ts_restrict_normal]; try exact Hc; apply (Hwf' e He).
+  - intros e'. unfold map_members. rewrite in_map_iff. split.
+    + intros (e & <- & He). exists e. split; [apply Hperm; exact He|reflexivity].
+    + intros (e & He & ->). exists e. split; [reflexivity|apply Hperm; exact He].
+Qed.
+
+(* under the invariants, restricting an entry to the group's support changes nothing *)
+Lemma restrict_entry_id g e : WFg g -> Rg g -> In e (g_entries g) -> restrict_entry (g_sup g) e = e.
+Proof.
+  intros (_ & Hc & Hwf) HR Hin. unfold Rg in HR. rewrite Forall_forall in Hwf, HR.
+  destruct (HR e Hin) as [Hw Hn]. unfold restrict_entry.
+  rewrite ts_restrict_id; [apply entry_eta|apply (Hwf e Hin)|exact Hc|exact Hw|exact Hn].
+Qed.
+
+(* ================================================================== *)
+(* 8. selection by a list of keys, a mask, the tag column               *)
+
+Definition pick (es : list entry) (k : Z) : list entry := match lookup k es with Some e => [e] | None => [] end.
+
+Lemma In_pick es keys e : NoDup (map e_key es) ->
+  In e (flat_map (pick es) keys) <-> In e es /\ In (e_key e) keys.
+Proof.
+  intros Hn. rewrite in_flat_map. unfold pick. split.
+  - intros (k & Hk & He). destruct (lookup k es) as [e0|] eqn:El; [|contradiction].
+    destruct He as [<-|[]]. apply lookup_In in El. destruct El as [E1 E2]. subst k. auto.
+  - intros [He Hk]. exists (e_key e). split; [exact Hk|].
+    rewrite (In_lookup (e_key e) es e Hn He eq_refl). left; reflexivity.
+Qed.
+
+Lemma pick_keys es keys : (forall k, In k keys -> In k (map e_key es)) -> map e_key (flat_map (pick es) keys) = keys.
+Proof.
+  induction keys as [|k r IH]; intros H; simpl; [reflexivity|].
+  rewrite map_app, IH by (intros; apply H; right; assumption). unfold pick.
+  destruct (lookup k es) as [e|] eqn:El.
+  - apply lookup_In in El. destruct El as [_ El]. simpl. rewrite El. reflexivity.
+  - apply lookup_None in El. exfalso. apply El. apply H. left; reflexivity.
+Qed.
+
+Theorem select_keys_spec g keys g' :
+  WFg g -> select_keys g keys = Some g' ->
+  WFg g' /\ Rg g' /\ g_sup g' = g_sup g /\ g_hastag g' = g_hastag g
+  /\ NoDup keys /\ (forall k, In k keys -> In k (g_keys g))
+  /\ (forall e', In e' (g_entries g') <->
+                 exists e, In e (g_entries g) /\ In (e_key e) keys /\ e' = restrict_entry (g_sup g) e).
+Proof.
+  intros (Hinc & Hc & Hwf) H. unfold select_keys in H.
+  destruct (forallb (fun k => has_key k (g_entries g)) keys && nodupb keys) eqn:E; [|discriminate].
+  apply andb_true_iff in E. destruct E as [E1 E2].
+  apply nodupb_spec in E2. rewrite forallb_forall in E1.
+  assert (Hkeys : forall k, In k keys -> In k (g_keys g)).
+  { intros k Hk. apply has_key_In. apply E1. exact Hk. }
+  pose proof (incr_NoDup _ Hinc) as Hnd.
+  fold (pick (g_entries g)) in H.
+  assert (Hwf' : Forall (fun e => wf_member (e_mem e)) (flat_map (pick (g_entries g)) keys)).
+  { apply Forall_forall. intros e He. apply (In_pick _ _ _ Hnd) in He. rewrite Forall_forall in Hwf. apply Hwf. tauto. }
+  destruct (regroup_invariants _ _ _ _ _ H Hc Hwf' ltac:(discriminate)) as (W & R & S & T & Hin).
+  repeat (split; [assumption|]).
+  intros e'. rewrite Hin. split.
+  - intros (e & He & ->). apply (In_pick _ _ _ Hnd) in He. exists e. tauto.
+  - intros (e & He & Hk & ->). exists e. split; [apply (In_pick _ _ _ Hnd); tauto|reflexivity].
+Qed.
+
+(* on a group that satisfies the invariants, the selected members are the old ones, untouched *)
+Theorem select_keys_preserves g keys g' :
+  WFg g -> Rg g -> select_keys g keys = Some g' ->
+  incr (g_keys g') /\ g_sup g' = g_sup g
+  /\ (forall e, In e (g_entries g') <-> In e (g_entries g) /\ In (e_key e) keys).
+Proof.
+  intros W R H. destruct (select_keys_spec g keys g' W H) as ((Hinc & _) & _ & S & _ & _ & _ & Hin).
+  split; [exact Hinc|]. split; [exact S|].
+  intros e'. rewrite Hin. split.
+  - intros (e & He & Hk & ->). rewrite (restrict_entry_id g e W R He). auto.
+  - intros [He Hk]. exists e'. rewrite (restrict_entry_id g e' W R He). auto.
+Qed.
+
+Theorem select_keys_total g keys :
+  NoDup keys -> (forall k, In k keys -> In k (g_keys g)) -> exists g', select_keys g keys = Some g'.
+Proof.
+  intros Hn Hk. unfold select_keys.
+  assert (E1 : forallb (fun k => has_key k (g_entries g)) keys = true).
+  { apply forallb_forall. intros k Hin. apply has_key_In. apply Hk. exact Hin. }
+  apply nodupb_spec in Hn. rewrite E1, Hn. cbn [andb]. fold (pick (g_entries g)).
+  eexists. apply regroup_some; [|reflexivity].
+  rewrite pick_keys by exact Hk. apply nodupb_spec. exact Hn.
+Qed.
+
+(* masks *)
+Lemma mask_keys_In mask : forall es k,
+  In k (mask_keys mask es) <-> exists i, nth_error mask i = Some true /\ nth_error (map e_key es) i = Some k.
+Proof.
+  induction mask as [|b mr IH]; intros es k.
+  - simpl. split; [contradiction|]. intros (i & H & _). destruct i; discriminate.
+  - destruct es as [|e er].
+    + simpl. split; [contradiction|]. intros (i & _ & H). destruct i; discriminate.
+    + cbn [mask_keys]. destruct b.
+      * cbn [In]. rewrite IH. split.
+        -- intros [<-|(i & H1 & H2)]; [exists 0%nat; split; reflexivity|exists (S i); split; assumption].
+        -- intros ([|i] & H1 & H2); [left; simpl in H2; congruence|right; exists i; split; assumption].
+      * rewrite IH. split.
+        -- intros (i & H1 & H2). exists (S i). split; assumption.
+        -- intros ([|i] & H1 & H2); [discriminate|exists i; split; assumption].
+Qed.
+
+Theorem select_mask_spec g mask g' :
+  select_mask g mask = Some g' ->
+  length mask = length (g_entries g) /\ select_keys g (mask_keys mask (g_entries g)) = Some g'.
+Proof.
+  unfold select_mask. destruct (length mask =? length (g_entries g))%nat eqn:E; [|discriminate].
+  apply Nat.eqb_eq in E. auto.
+Qed.
+
+(* the tag column *)
+Theorem select_pred_spec g p g' :
+  WFg g -> select_pred g p = Some g' ->
+  g_hastag g = true /\ WFg g' /\ Rg g' /\ g_sup g' = g_sup g /\ g_hastag g' = true
+  /\ (forall e', In e' (g_entries g') <->
+                 exists e, In e (g_entries g) /\ p (e_tag e) = true /\ e' = restrict_entry (g_sup g) e).
+Proof.
+  intros W H. unfold select_pred in H. destruct (g_hastag g) eqn:Et; [|discriminate].
+  destruct (select_keys_spec g _ g' W H) as (W' & R' & S & T & _ & _ & Hin).
+  split; [reflexivity|]. split; [exact W'|]. split; [exact R'|]. split; [exact S|]. split; [congruence|].
+  destruct W as (Hinc & _ & _). pose proof (incr_NoDup _ Hinc) as Hnd.
+  intros e'. rewrite Hin. split.
+  - intros (e & He & Hk & ->). exists e. split; [exact He|]. split; [|reflexivity].
+    apply in_map_iff in Hk. destruct Hk as (e0 & Ek & H0). apply filter_In in H0. destruct H0 as [H0 Hp].
+    assert (e0 = e).
+    { pose proof (In_lookup (e_key e) (g_entries g) e Hnd He eq_refl) as L1.
+      pose proof (In_lookup (e_key e) (g_entries g) e0 Hnd H0 Ek) as L2. congruence. }
+    subst e0. exact Hp.
+  - intros (e & He & Hp & ->). exists e. split; [exact He|]. split; [|reflexivity].
+    apply in_map. apply filter_In. auto.
+Qed.
+
+Theorem getby_threshold_spec g thr op g' :
+  WFg g -> getby_threshold g thr op = Some g' ->
+  WFg g' /\ Rg g' /\ g_sup g' = g_sup g
+  /\ (forall e', In e' (g_entries g') <->
+                 exists e, In e (g_entries g) /\ thr_pred op thr (e_tag e) = true /\ e' = restrict_entry (g_sup g) e).
+Proof.
+  intros W H. unfold getby_threshold in H. destruct ((0 <=? op) && (op <=? 3)); [|discriminate].
+  destruct (select_pred_spec g _ g' W H) as (_ & W' & R' & S & _ & Hin). auto.
+Qed.
+
+Theorem getby_category_spec g c g' :
+  WFg g -> getby_category g c = Some g' ->
+  WFg g' /\ Rg g' /\ g_sup g' = g_sup g
+  /\ (forall e', In e' (g_entries g') <->
+                 exists e, In e (g_entries g) /\ e_tag e = c /\ e' = restrict_entry (g_sup g) e).
+Proof.
+  intros W H. unfold getby_category in H. destruct (existsb (fun e => e_tag e =? c) (g_entries g)); [|discriminate].
+  destruct (select_pred_spec g _ g' W H) as (_ & W' & R' & S & _ & Hin).
+  split; [exact W'|]. split; [exact R'|]. split; [exact S|].
+  intros e'. rewrite Hin. split; intros (e & He & Hp & ->); exists e; (split; [exact He|]); (split; [|reflexivity]).
+  - apply Z.eqb_eq. exact Hp.
+  - apply Z.eqb_eq. exact Hp.
+Qed.
+
+Theorem getby_intervals_spec g bins i r :
+  In (i, r) (getby_intervals g bins) ->
+  exists a b, nth_error (bin_pairs bins) i = Some (a, b)
+              /\ r = select_pred g (fun x => (a <=? x) && (x <? b))
+              /\ existsb (fun e => (a <=? e_tag e) && (e_tag e <? b)) (g_entries g) = true.
+Proof.
+  unfold getby_intervals. destruct (g_hastag g); [|contradiction].
+  rewrite in_flat_map. intros ([j [a b]] & Hin & H).
+  destruct (existsb (fun e => (a <=? e_tag e) && (e_tag e <? b)) (g_entries g)) eqn:E; [|contradiction].
+  destruct H as [H|[]]. inversion H; subst. exists a, b. split; [|split; [reflexivity|exact E]].
+  clear -Hin. remember (bin_pairs bins) as l. clear Heql.
+  assert (G : forall (l : list (Z * Z)) n i ab, In (i, ab) (combine (seq n (length l)) l) -> nth_error l (i - n) = Some ab /\ (n <= i)%nat).
+  { clear. induction l as [|x r IH]; intros n i ab H; simpl in H; [contradiction|].
+    destruct H as [H|H].
+    - inversion H; subst. rewrite Nat.sub_diag. split; [reflexivity|lia].
+    - destruct (IH _ _ _ H) as [H1 H2]. split; [|lia]. replace (i - n)%nat with (S (i - S n)) by lia. exact H1. }
+  destruct (G l 0%nat i (a, b) Hin) as [H _]. rewrite Nat.sub_0_r in H. exact H.
+Qed.
+
+(* ================================================================== *)
+(* 9. restrict and get: member-wise, keys and tags untouched            *)
+
+Lemma chosen_support_some s es : chosen_support (Some s) es = Some s.
+Proof. reflexivity. Qed.
+
+Theorem g_restrict_spec g ep :
+  WFg g -> canonical ep ->
+  exists g', g_restrict g ep = Some g'
+    /\ WFg g' /\ Rg g' /\ g_sup g' = ep /\ g_hastag g' = g_hastag g
+    /\ g_entries g' = map (restrict_entry ep) (g_entries g)
+    /\ Forall (fun e => m_t (e_mem (restrict_entry ep e)) = filter (fun x => mem x ep) (m_t (e_mem e))) (g_entries g).
+Proof.
+  intros (Hinc & Hc & Hwf) Hep. unfold g_restrict.
+  set (es' := map_members (fun m => ts_restrict m ep) (g_entries g)).
+  assert (Hk : map e_key es' = g_keys g) by apply map_members_keys.
+  assert (Hinc' : incr (map e_key es')) by (rewrite Hk; exact Hinc).
+  assert (Hs : regroup es' (Some ep) true (g_hastag g) = Some (es', (ep, g_hastag g))).
+  { rewrite (regroup_some es' (Some ep) true (g_hastag g) ep (incr_NoDup _ Hinc') eq_refl).
+    rewrite sort_entries_sorted_id by exact Hinc'. reflexivity. }
+  exists (es', (ep, g_hastag g)). split; [exact Hs|].
+  rewrite Forall_forall in Hwf.
+  assert (Hwf' : Forall (fun e => wf_member (e_mem e)) es').
+  { apply Forall_map_members. apply Forall_forall. intros e He. unfold e_mem. cbn [snd].
+    apply ts_restrict_wf; [apply (Hwf e He)|exact Hep]. }
+  assert (HR : Forall (fun e => within ep (e_mem e) /\ normal ep (e_mem e)) es').
+  { apply Forall_map_members. apply Forall_forall. intros e He. unfold e_mem. cbn [snd].
+    split; [apply ts_restrict_within|apply ts_restrict_normal]; try exact Hep; apply (Hwf e He). }
+  destruct (regroup_invariants _ _ _ _ _ Hs Hep Hwf' (fun _ => HR)) as (W & R & S & T & _).
+  repeat (split; [assumption|]). split; [reflexivity|].
+  apply Forall_forall. intros e He. apply ts_restrict_t; [apply (Hwf e He)|exact Hep].
+Qed.
+
+Theorem g_get_spec g a b :
+  WFg g -> Rg g -> a <= b ->
+  exists g', g_get g a b = Some g'
+    /\ WFg g' /\ Rg g' /\ g_sup g' = g_sup g /\ g_hastag g' = g_hastag g
+    /\ g_entries g' = map_members (fun m => ts_get m a b) (g_entries g)
+    /\ Forall (fun e => m_t (ts_get (e_mem e) a b) = filter (fun t => (a <=? t) && (t <=? b)) (m_t (e_mem e))) (g_entries g).
+Proof.
+  intros (Hinc & Hc & Hwf) HR Hab. unfold g_get.
+  destruct (b <? a) eqn:E; [lia|].
+  set (es' := map_members (fun m => ts_get m a b) (g_entries g)).
+  assert (Hk : map e_key es' = g_keys g) by apply map_members_keys.
+  assert (Hinc' : incr (map e_key es')) by (rewrite Hk; exact Hinc).
+  assert (Hs : regroup es' (Some (g_sup g)) true (g_hastag g) = Some (es', (g_sup g, g_hastag g))).
+  { rewrite (regroup_some es' (Some (g_sup g)) true (g_hastag g) (g_sup g) (incr_NoDup _ Hinc') eq_refl).
+    rewrite sort_entries_sorted_id by exact Hinc'. reflexivity. }
+  exists (es', (g_sup g, g_hastag g)). split; [exact Hs|].
+  unfold Rg in HR. rewrite Forall_forall in Hwf, HR.
+  assert (Hall : forall e, In e (g_entries g) ->
+            m_t (ts_get (e_mem e) a b) = filter (fun t => (a <=? t) && (t <=? b)) (m_t (e_mem e))
+            /\ wf_member (ts_get (e_mem e) a b) /\ within (g_sup g) (ts_get (e_mem e) a b) /\ normal (g_sup g) (ts_get (e_mem e) a b)).
+  { intros e He. destruct (HR e He) as [Hw Hn]. apply ts_get_t; [apply (Hwf e He)|exact Hc|exact Hw|exact Hn]. }
+  assert (Hwf' : Forall (fun e => wf_member (e_mem e)) es').
+  { apply Forall_map_members. apply Forall_forall. intros e He. unfold e_mem. cbn [snd]. apply (Hall e He). }
+  assert (HR' : Forall (fun e => within (g_sup g) (e_mem e) /\ normal (g_sup g) (e_mem e)) es').
+  { apply Forall_map_members. apply Forall_forall. intros e He. unfold e_mem. cbn [snd].
+    destruct (Hall e He) as (_ & _ & H1 & H2). auto. }
+  destruct (regroup_invariants _ _ _ _ _ Hs Hc Hwf' (fun _ => HR')) as (W & R & S & T & _).
+  repeat (split; [assumption|]). split; [reflexivity|].
+  apply Forall_forall. intros e He. apply (Hall e He).
+Qed.
+
+Theorem g_get_inverted g a b : b < a -> g_get g a b = None.
+Proof. intros H. unfold g_get. destruct (b <? a) eqn:E; [reflexivity|lia]. Qed.
+
+(* ================================================================== *)
+(* 10. merge_group                                                      *)
+
+Definition merge_items (gs : list group) (reset_index : bool) : list entry :=
+  if reset_index then renumber (flat_map g_entries gs) else flat_map g_entries gs.
+
+Lemma merge_group_inv gs ri rs im g' :
+  (2 <= length gs)%nat -> merge_group gs ri rs im = Some g' ->
+  exists g1 rest, gs = g1 :: rest
+    /\ (im = true \/ Forall (fun g => g_hastag g = g_hastag g1) rest)
+    /\ (ri = true \/ disjoint_keys (g_keys g1) rest = true)
+    /\ (rs = true \/ Forall (fun g => sup_same (g_sup g1) (g_sup g) = true) rest)
+    /\ (im = true \/ incr (map e_key (merge_items gs ri)))
+    /\ regroup (merge_items gs ri) (if rs then None else Some (g_sup g1)) false (if im then false else g_hastag g1) = Some g'.
+Proof.
+  intros Hl H. destruct gs as [|g1 [|g2 rest]]; simpl in Hl; try lia.
+  exists g1, (g2 :: rest). split; [reflexivity|].
+  set (gs := g1 :: g2 :: rest) in *. set (rs' := g2 :: rest) in *.
+  assert (E : merge_group gs ri rs im =
+    if (im || forallb (fun g => Bool.eqb (g_hastag g) (g_hastag g1)) rs')
+       && (ri || disjoint_keys (g_keys g1) rs')
+       && (rs || forallb (fun g => sup_same (g_sup g1) (g_sup g)) rs')
+    then if negb im && negb (incrb (map e_key (merge_items gs ri))) then None
+         else regroup (merge_items gs ri) (if rs then None else Some (g_sup g1)) false (if im then false else g_hastag g1)
+    else None) by reflexivity.
+  rewrite E in H. clear E.
+  destruct ((im || forallb (fun g => Bool.eqb (g_hastag g) (g_hastag g1)) rs')
+            && (ri || disjoint_keys (g_keys g1) rs')
+            && (rs || forallb (fun g => sup_same (g_sup g1) (g_sup g)) rs')) eqn:E; [|discriminate].
+  apply andb_true_iff in E. destruct E as [E E3]. apply andb_true_iff in E. destruct E as [E1 E2].
+  destruct (negb im && negb (incrb (map e_key (merge_items gs ri)))) eqn:E4; [discriminate|].
+  split.
+  { apply orb_true_iff in E1. destruct E1 as [E1|E1]; [left; exact E1|right].
+    apply Forall_forall. intros g Hg. rewrite forallb_forall in E1. apply Bool.eqb_prop. apply E1. exact Hg. }
+  split. { apply orb_true_iff in E2. exact E2. }
+  split.
+  { apply orb_true_iff in E3. destruct E3 as [E3|E3]; [left; exact E3|right].
+    apply Forall_forall. intros g Hg. rewrite forallb_forall in E3. apply E3. exact Hg. }
+  split; [|exact H].
+  destruct im; [left; reflexivity|right]. cbn [negb andb] in E4. apply negb_false_iff in E4. apply incrb_spec. exact E4.
+Qed.
+
+Lemma Forall_flat_map {A B} (P : B -> Prop) (f : A -> list B) l :
+  Forall (fun a => Forall P (f a)) l -> Forall P (flat_map f l).
+Proof.
+  induction l as [|a r IH]; intros H; simpl; [constructor|].
+  inversion H; subst. apply Forall_app. split; [assumption|apply IH; assumption].
+Qed.
+
+Lemma renumber_spec es : map (fun e => snd e) (renumber es) = map (fun e => snd e) es
+  /\ map e_key (renumber es) = map Z.of_nat (seq 0 (length es)).
+Proof.
+  unfold renumber. generalize 0%nat. induction es as [|e r IH]; intros n; simpl; [split; reflexivity|].
+  destruct (IH (S n)) as [I1 I2]. split; f_equal; assumption.
+Qed.
+
+Lemma renumber_wf es : Forall (fun e => wf_member (e_mem e)) es -> Forall (fun e => wf_member (e_mem e)) (renumber es).
+Proof.
+  intros H. destruct (renumber_spec es) as [E _].
+  assert (G : forall l l' : list entry, map (fun e => snd e) l = map (fun e => snd e) l' ->
+              Forall (fun e => wf_member (e_mem e)) l' -> Forall (fun e => wf_member (e_mem e)) l).
+  { induction l as [|x r IH]; intros [|y q] Em Hq; simpl in Em; try discriminate; [constructor|].
+    inversion Em. inversion Hq; subst. constructor; [|eapply IH; eassumption].
+    unfold e_mem in *. congruence. }
+  eapply G; eassumption.
+Qed.
+
+Theorem merge_group_spec gs ri rs im g' :
+  (2 <= length gs)%nat -> Forall WFg gs -> merge_group gs ri rs im = Some g' ->
+  WFg g' /\ Rg g'
+  /\ (rs = false -> g_sup g' = g_sup (hd g' gs))
+  /\ (rs = true -> g_sup g' = union_supports (map (fun e => m_sup (e_mem e)) (sort_entries (merge_items gs ri))) /\ g_sup g' <> [])
+  /\ (forall e', In e' (g_entries g') <-> exists e, In e (merge_items gs ri) /\ e' = restrict_entry (g_sup g') e)
+  /\ (ri = true -> g_keys g' = map Z.of_nat (seq 0 (length (flat_map g_entries gs)))).
+Proof.
+  intros Hl HW H. destruct (merge_group_inv _ _ _ _ _ Hl H) as (g1 & rest & -> & _ & _ & _ & _ & Hr).
+  assert (Hwf0 : Forall (fun e => wf_member (e_mem e)) (flat_map g_entries (g1 :: rest))).
+  { apply Forall_flat_map. eapply Forall_impl'; [|exact HW]. intros g (_ & _ & Hg). exact Hg. }
+  assert (Hwf : Forall (fun e => wf_member (e_mem e)) (merge_items (g1 :: rest) ri)).
+  { unfold merge_items. destruct ri; [apply renumber_wf|]; exact Hwf0. }
+  assert (Hkeys : forall g, g_keys g = map e_key (g_entries g)) by reflexivity.
+  assert (Hri : WFg g' -> (forall e', In e' (g_entries g') <-> exists e, In e (merge_items (g1 :: rest) ri) /\ e' = restrict_entry (g_sup g') e) ->
+                ri = true -> g_keys g' = map Z.of_nat (seq 0 (length (flat_map g_entries (g1 :: rest))))).
+  { intros _ _ ->. destruct (regroup_inv _ _ _ _ _ Hr) as (_ & s & _ & ->).
+    unfold g_keys, g_entries. cbn [fst]. rewrite map_members_keys.
+    unfold merge_items. destruct (renumber_spec (flat_map g_entries (g1 :: rest))) as [_ E].
+    rewrite sort_entries_sorted_id; [exact E|]. rewrite E.
+    clear. generalize (length (flat_map g_entries (g1 :: rest))). intros n0.
+    assert (G : forall m k, inc_from (Z.of_nat k - 1) (map Z.of_nat (seq k m))).
+    { induction m as [|m IH]; intros k; simpl; [exact I|]. split; [lia|].
+      replace (Z.of_nat k) with (Z.of_nat (S k) - 1) by lia. apply IH. }
+    eapply inc_from_incr. apply (G n0 0%nat). }
+  destruct rs.
+  - destruct (regroup_invariants_union _ _ _ Hr Hwf) as (W & R & _ & S & Sn & Hin).
+    split; [exact W|]. split; [exact R|]. split; [discriminate|]. split; [auto|]. split; [exact Hin|apply Hri; assumption].
+  - inversion HW as [|? ? (_ & Hc1 & _) _]; subst.
+    destruct (regroup_invariants _ _ _ _ _ Hr Hc1 Hwf ltac:(discriminate)) as (W & R & S & _ & Hin).
+    split; [exact W|]. split; [exact R|]. split; [intros _; exact S|]. split; [discriminate|].
+    split; [rewrite S; exact Hin|]. apply Hri; [exact W|rewrite S; exact Hin].
+Qed.
+
+(* members of groups that satisfy the invariants and share the support are carried over untouched *)
+Theorem merge_group_preserves gs im g' :
+  (2 <= length gs)%nat -> Forall WFg gs -> Forall Rg gs ->
+  Forall (fun g => g_sup g = g_sup (hd g' gs)) gs ->
+  merge_group gs false false im = Some g' ->
+  incr (g_keys g') /\ g_sup g' = g_sup (hd g' gs)
+  /\ (forall e, In e (g_entries g') <-> exists g, In g gs /\ In e (g_entries g)).
+Proof.
+  intros Hl HW HR HS H. destruct (merge_group_spec gs false false im g' Hl HW H) as ((Hinc & _) & _ & S & _ & Hin & _).
+  specialize (S eq_refl). split; [exact Hinc|]. split; [exact S|].
+  assert (Hid : forall g e, In g gs -> In e (g_entries g) -> restrict_entry (g_sup g') e = e).
+  { intros g e Hg He. rewrite Forall_forall in HW, HR, HS. rewrite S, <- (HS g Hg).
+    apply restrict_entry_id; auto. }
+  intros e'. rewrite Hin. unfold merge_items. split.
+  - intros (e & He & ->). apply in_flat_map in He. destruct He as (g & Hg & He).
+    exists g. rewrite (Hid g e Hg He). auto.
+  - intros (g & Hg & He). exists e'. split; [apply in_flat_map; eauto|]. symmetry. eapply Hid; eassumption.
+Qed.
+
+(* ================================================================== *)
+(* 11. to_tsd -> to_tsgroup                                             *)
+
+Definition group_rows (g : group) : list (Z * Z) :=
+  flat_map (fun e => map (fun t => (t, e_key e)) (m_t (e_mem e))) (g_entries g).
+
+Lemma insert_row_perm x l : Permutation (insert_row_stable x l) (x :: l).
+Proof.
+  induction l as [|y r IH]; simpl; [apply Permutation_refl|].
+  destruct (fst x <=? fst y); [apply Permutation_refl|].
+  eapply Permutation_trans; [apply perm_skip; exact IH|apply perm_swap].
+Qed.
+
+Lemma sort_rows_perm l : Permutation (sort_rows_stable l) l.
+Proof.
+  induction l as [|x r IH]; simpl; [constructor|].
+  eapply Permutation_trans; [apply insert_row_perm|apply perm_skip; exact IH].
+Qed.
+
+Lemma insert_row_sorted x l : forall lo,
+  sorted_from lo (map fst l) -> lo <= fst x -> sorted_from lo (map fst (insert_row_stable x l)).
+Proof.
+  induction l as [|y r IH]; intros lo H Hlo; simpl.
+  - auto.
+  - simpl in H. destruct H as [H1 H2]. destruct (fst x <=? fst y) eqn:E; simpl.
+    + repeat split; try lia. exact H2.
+    + split; [exact H1|]. apply IH; [exact H2|lia].
+Qed.
+
+Lemma sort_rows_sorted_from l : exists lo, sorted_from lo (map fst (sort_rows_stable l)).
+Proof.
+  induction l as [|x r [lo IH]]; simpl; [exists 0; exact I|].
+  exists (Z.min lo (fst x)). apply insert_row_sorted; [|lia].
+  eapply sorted_from_weaken; [|exact IH]. lia.
+Qed.
+
+Lemma sort_rows_sorted l : sortedZ (map fst (sort_rows_stable l)).
+Proof. destruct (sort_rows_sorted_from l) as [lo H]. eapply sortedZ_from; exact H. Qed.
+
+(* inserting into a sorted list, then filtering = filtering, then inserting *)
+Lemma filter_insert_row (p : Z * Z -> bool) x l : forall lo,
+  sorted_from lo (map fst l) ->
+  filter p (insert_row_stable x l) = if p x then insert_row_stable x (filter p l) else filter p l.
+Proof.
+  induction l as [|y r IH]; intros lo H; simpl.
+  - destruct (p x); reflexivity.
+  - simpl in H. destruct H as [H1 H2].
+    destruct (fst x <=? fst y) eqn:E.
+    + (* x goes in front of y: in the filtered list it also goes in front *)
+      simpl. destruct (p x) eqn:Px.
+      * destruct (p y) eqn:Py; simpl.
+        -- rewrite E. reflexivity.
+        -- (* every kept element of r is >= y >= x *)
+           clear IH. assert (G : forall q, Forall (fun z => fst x <= fst z) q -> insert_row_stable x q = x :: q).
+           { intros [|z q] Hq; [reflexivity|]. inversion Hq; subst. simpl.
+             destruct (fst x <=? fst z) eqn:E'; [reflexivity|lia]. }
+           rewrite G; [reflexivity|].
+           apply Forall_forall. intros z Hz. apply filter_In in Hz. destruct Hz as [Hz _].
+           pose proof (sorted_from_Forall _ _ H2) as HF. rewrite Forall_forall in HF.
+           specialize (HF (fst z) (in_map fst _ _ Hz)). lia.
+      * reflexivity.
+    + simpl. rewrite (IH (fst y) H2). destruct (p y) eqn:Py; destruct (p x) eqn:Px; simpl; try reflexivity.
+      rewrite E. reflexivity.
+Qed.
+
+Lemma filter_sort_rows (p : Z * Z -> bool) l : filter p (sort_rows_stable l) = sort_rows_stable (filter p l).
+Proof.
+  induction l as [|x r IH]; simpl; [reflexivity|].
+  destruct (sort_rows_sorted_from r) as [lo Hlo].
+  rewrite (filter_insert_row p x _ lo Hlo), IH. destruct (p x); reflexivity.
+Qed.
+
+Lemma sort_rows_id l : sortedZ (map fst l) -> sort_rows_stable l = l.
+Proof.
+  induction l as [|x r IH]; intros H; simpl; [reflexivity|].
+  rewrite IH by (simpl in H; eapply sortedZ_tail; exact H).
+  destruct r as [|y q]; [reflexivity|]. simpl in H. destruct H as [H _]. simpl.
+  destruct (fst x <=? fst y) eqn:E; [reflexivity|lia].
+Qed.
+
+(* the rows carrying key k are those of the member stored under k *)
+Lemma filter_rows_other k (e : entry) : e_key e <> k ->
+  filter (fun r : Z * Z => snd r =? k) (map (fun t => (t, e_key e)) (m_t (e_mem e))) = [].
+Proof.
+  intros H. apply filter_nil_iff. apply Forall_forall. intros r Hr. apply in_map_iff in Hr.
+  destruct Hr as (t & <- & _). simpl. apply Z.eqb_neq. exact H.
+Qed.
+
+Lemma filter_rows_self (e : entry) :
+  filter (fun r : Z * Z => snd r =? e_key e) (map (fun t => (t, e_key e)) (m_t (e_mem e)))
+  = map (fun t => (t, e_key e)) (m_t (e_mem e)).
+Proof. apply filter_all. apply Forall_forall. intros r Hr. apply in_map_iff in Hr.
+  destruct Hr as (t & <- & _). simpl. apply Z.eqb_refl. Qed.
+
+Lemma filter_group_rows es k : NoDup (map e_key es) ->
+  filter (fun r : Z * Z => snd r =? k) (flat_map (fun e => map (fun t => (t, e_key e)) (m_t (e_mem e))) es)
+  = match lookup k es with Some e => map (fun t => (t, k)) (m_t (e_mem e)) | None => [] end.
+Proof.
+  induction es as [|e r IH]; intros Hn; simpl; [reflexivity|].
+  inversion Hn as [|? ? Hk Hr]; subst.
+  assert (Ef : forall (l1 l2 : list (Z * Z)) p, filter p (l1 ++ l2) = filter p l1 ++ filter p l2).
+  { intros l1 l2 p. induction l1 as [|a q IHq]; simpl; [reflexivity|]. destruct (p a); simpl; rewrite IHq; reflexivity. }
+  rewrite Ef, (IH Hr). unfold lookup. simpl. destruct (e_key e =? k) eqn:E.
+  - apply Z.eqb_eq in E. subst k. rewrite filter_rows_self.
+    fold (lookup (e_key e) r). assert (L : lookup (e_key e) r = None) by (apply lookup_None; exact Hk).
+    rewrite L. apply app_nil_r.
+  - apply Z.eqb_neq in E. rewrite (filter_rows_other k e E). reflexivity.
+Qed.
+
+(* np.unique *)
+Lemma insert_uniq_spec x l : forall lo, inc_from lo l -> lo < x ->
+  inc_from lo (insert_uniq x l) /\ (forall y, In y (insert_uniq x l) <-> y = x \/ In y l).
+Proof.
+  induction l as [|z r IH]; intros lo H Hlo; simpl.
+  - split; [auto|]. intros y. intuition congruence.
+  - simpl in H. destruct H as [H1 H2]. destruct (x <? z) eqn:E1.
+    + split; [simpl; repeat split; try lia; eapply inc_from_weaken; [|exact H2]; lia|]. intros y. simpl. intuition congruence.
+    + destruct (x =? z) eqn:E2.
+      * apply Z.eqb_eq in E2. subst z. split; [simpl; auto|]. intros y. simpl. intuition congruence.
+      * destruct (IH z H2 ltac:(lia)) as [I1 I2]. split; [simpl; auto|].
+        intros y. simpl. rewrite I2. intuition congruence.
+Qed.
+
+Lemma uniq_sorted_spec l : (exists lo, inc_from lo (uniq_sorted l)) /\ (forall y, In y (uniq_sorted l) <-> In y l).
+Proof.
+  induction l as [|x r [[lo IH1] IH2]]; simpl.
+  - split; [exists 0; exact I|tauto].
+  - destruct (insert_uniq_spec x (uniq_sorted r) (Z.min lo (x - 1))) as [I1 I2].
+    + eapply inc_from_weaken; [|exact IH1]. lia.
+    + lia.
+    + split; [eexists; exact I1|]. intros y. rewrite I2, IH2. intuition.
+Qed.
+
+Lemma combine_fst_snd (rows : list (Z * Z)) : combine (map fst rows) (map snd rows) = rows.
+Proof. induction rows as [|[a b] r IH]; simpl; [reflexivity|]. rewrite IH. reflexivity. Qed.
+
+(* the Tsd constructor leaves sorted rows inside the support alone *)
+Lemma mk_tsd_id rows s : rows <> [] -> sortedZ (map fst rows) -> canonical s ->
+  Forall (fun r => mem (fst r) s = true) rows -> mk_tsd rows s = (rows, s).
+Proof.
+  intros Hn Hs Hc Hw. destruct rows as [|r0 q]; [congruence|]. unfold mk_tsd.
+  set (rows := r0 :: q) in *.
+  rewrite (restrict_rows_spec 0 (map fst rows) (map snd rows) s Hs Hc) by (rewrite !map_length; reflexivity).
+  rewrite combine_fst_snd. rewrite filter_all by exact Hw. reflexivity.
+Qed.
+
+Theorem roundtrip_spec g :
+  WFg g -> Rg g ->
+  exists g', roundtrip g = Some g' /\ WFg g' /\ Rg g' /\ g_hastag g' = false
+    /\ (forall e', In e' (g_entries g') <->
+                   exists e, In e (g_entries g) /\ m_t (e_mem e) <> [] /\ e' = (e_key e, (0, e_mem e)))
+    /\ ((exists e, In e (g_entries g) /\ m_t (e_mem e) <> []) -> g_sup g' = g_sup g).
+Proof.
+  intros (Hinc & Hc & Hwf) HR. unfold roundtrip, to_tsd. fold (group_rows g).
+  pose proof (incr_NoDup _ Hinc) as Hnd. unfold g_keys in Hnd.
+  unfold Rg in HR. rewrite Forall_forall in Hwf, HR.
+  set (R := group_rows g). set (SR := sort_rows_stable R).
+  assert (HinR : forall r, In r R <-> exists e, In e (g_entries g) /\ In (fst r) (m_t (e_mem e)) /\ snd r = e_key e).
+  { intros r. unfold R, group_rows. rewrite in_flat_map. split.
+    - intros (e & He & Hr). apply in_map_iff in Hr. destruct Hr as (t & <- & Ht). exists e. auto.
+    - intros (e & He & Ht & Hk). exists e. split; [exact He|]. apply in_map_iff. exists (fst r).
+      split; [rewrite <- Hk; destruct r; reflexivity|exact Ht]. }
+  assert (Hperm : forall r, In r SR <-> In r R).
+  { intros r. split; apply Permutation_in; [apply sort_rows_perm|apply Permutation_sym, sort_rows_perm]. }
+  assert (Hcase : R = [] \/ R <> []) by (destruct R; [left; reflexivity|right; discriminate]).
+  destruct Hcase as [ER|ER].
+  - (* no sample at all *)
+    assert (Hempty : forall e, In e (g_entries g) -> m_t (e_mem e) = []).
+    { intros e He. destruct (m_t (e_mem e)) as [|t q] eqn:Et; [reflexivity|].
+      exfalso. assert (Hin : In (t, e_key e) R) by (apply HinR; exists e; rewrite Et; simpl; auto).
+      rewrite ER in Hin. exact Hin. }
+    exists ([], ([], false)). unfold SR. rewrite ER. simpl. split; [reflexivity|].
+    split; [repeat split; constructor|]. split; [constructor|]. split; [reflexivity|].
+    split.
+    + intros e'. split; [contradiction|]. intros (e & He & Hne & _). exfalso. apply Hne. apply Hempty. exact He.
+    + intros (e & He & Hne). exfalso. apply Hne. apply Hempty. exact He.
+  - assert (Hne : SR <> []).
+    { intros E. apply ER. pose proof (Permutation_length (sort_rows_perm R)) as L. fold SR in L. rewrite E in L.
+      destruct R; [reflexivity|discriminate]. }
+    assert (Hw : Forall (fun r => mem (fst r) (g_sup g) = true) SR).
+    { apply Forall_forall. intros r Hr. apply Hperm, HinR in Hr. destruct Hr as (e & He & Ht & _).
+      destruct (HR e He) as [Hwi _]. unfold within in Hwi. rewrite Forall_forall in Hwi. apply Hwi. exact Ht. }
+    rewrite (mk_tsd_id SR (g_sup g) Hne (sort_rows_sorted R) Hc Hw).
+    unfold to_tsgroup.
+    set (K := uniq_sorted (map snd SR)).
+    set (es := map (fun k => (k, (0, mk_ts (map fst (filter (fun r : Z * Z => snd r =? k) SR)) (g_sup g)))) K).
+    destruct (uniq_sorted_spec (map snd SR)) as [[lo HK1] HK2]. fold K in HK1, HK2.
+    assert (HinK : forall k, In k K <-> exists e, In e (g_entries g) /\ e_key e = k /\ m_t (e_mem e) <> []).
+    { intros k. rewrite HK2, in_map_iff. split.
+      - intros (r & <- & Hr). apply Hperm, HinR in Hr. destruct Hr as (e & He & Ht & Hk).
+        exists e. split; [exact He|]. split; [symmetry; exact Hk|]. intros E. rewrite E in Ht. exact Ht.
+      - intros (e & He & <- & Hn). destruct (m_t (e_mem e)) as [|t q] eqn:Et; [congruence|].
+        exists (t, e_key e). split; [reflexivity|]. apply Hperm, HinR. exists e. rewrite Et. simpl. auto. }
+    assert (Hmem : forall e, In e (g_entries g) -> m_t (e_mem e) <> [] ->
+              mk_ts (map fst (filter (fun r : Z * Z => snd r =? e_key e) SR)) (g_sup g) = e_mem e).
+    { intros e He Hn. unfold SR. rewrite filter_sort_rows. unfold R, group_rows.
+      rewrite (filter_group_rows _ _ Hnd), (In_lookup (e_key e) _ e Hnd He eq_refl).
+      destruct (HR e He) as [Hwi Hno].
+      assert (Hst : sortedZ (map fst (map (fun t => (t, e_key e)) (m_t (e_mem e))))).
+      { rewrite map_map. simpl. rewrite map_id. apply (Hwf e He). }
+      rewrite sort_rows_id by exact Hst. rewrite map_map. simpl. rewrite map_id.
+      destruct (mk_ts_normal_restricted (m_t (e_mem e)) (g_sup g) (proj1 (Hwf e He)) Hc Hwi) as [_ E]. rewrite E.
+      destruct (e_mem e) as [t ms]. unfold normal, m_t, m_sup in *. cbn [fst snd] in *.
+      destruct t; [congruence|]. subst ms. reflexivity. }
+    assert (Hkeys : map e_key es = K).
+    { unfold es. rewrite map_map. simpl. apply map_id. }
+    assert (Hinc' : incr (map e_key es)) by (rewrite Hkeys; eapply inc_from_incr; exact HK1).
+    assert (Hines : forall e', In e' es <-> exists e, In e (g_entries g) /\ m_t (e_mem e) <> [] /\ e' = (e_key e, (0, e_mem e))).
+    { intros e'. unfold es. rewrite in_map_iff. split.
+      - intros (k & <- & Hk). apply HinK in Hk. destruct Hk as (e & He & <- & Hn).
+        exists e. split; [exact He|]. split; [exact Hn|]. rewrite (Hmem e He Hn). reflexivity.
+      - intros (e & He & Hn & ->). exists (e_key e). split; [rewrite (Hmem e He Hn); reflexivity|].
+        apply HinK. exists e. auto. }
+    assert (Hs : regroup es (Some (g_sup g)) true false = Some (es, (g_sup g, false))).
+    { rewrite (regroup_some es (Some (g_sup g)) true false (g_sup g) (incr_NoDup _ Hinc') eq_refl).
+      rewrite sort_entries_sorted_id by exact Hinc'. reflexivity. }
+    exists (es, (g_sup g, false)). split; [exact Hs|].
+    assert (Hwf' : Forall (fun e => wf_member (e_mem e)) es).
+    { apply Forall_forall. intros e' He'. apply Hines in He'. destruct He' as (e & He & _ & ->). apply (Hwf e He). }
+    assert (HR' : Forall (fun e => within (g_sup g) (e_mem e) /\ normal (g_sup g) (e_mem e)) es).
+    { apply Forall_forall. intros e' He'. apply Hines in He'. destruct He' as (e & He & _ & ->). apply (HR e He). }
+    destruct (regroup_invariants _ _ _ _ _ Hs Hc Hwf' (fun _ => HR')) as (W & R' & S & T & _).
+    split; [exact W|]. split; [exact R'|]. split; [reflexivity|]. split; [exact Hines|]. intros _. reflexivity.
+Qed.
+
+(* ================================================================== *)
+(* 12. invariants over histories                                        *)
+
+Lemma Forall_two {A} (P : A -> Prop) a b : P a -> P b -> Forall P [a; b].
+Proof. intros; repeat constructor; assumption. Qed.
+
+Definition op_ok (o : gop) : Prop :=
+  match o with
+  | ORestrict ep => canonical ep
+  | OMergeWith other _ _ _ _ => WFg other /\ Rg other
+  | _ => True
+  end.
+
+Theorem step_invariant g o g' : WFg g -> Rg g -> op_ok o -> step g o = Some g' -> WFg g' /\ Rg g'.
+Proof.
+  intros W R Hok H. destruct o as [keys|mask|thr op|c|bins j|ep|a b| |m1 m2 ri rs im|other first ri rs im]; cbn [step] in H; simpl in Hok.
+  - destruct (select_keys_spec g keys g' W H) as (W' & R' & _). auto.
+  - destruct (select_mask_spec g mask g' H) as [_ H']. destruct (select_keys_spec g _ g' W H') as (W' & R' & _). auto.
+  - destruct (getby_threshold_spec g thr op g' W H) as (W' & R' & _). auto.
+  - destruct (getby_category_spec g c g' W H) as (W' & R' & _). auto.
+  - destruct (nth_error (getby_intervals g bins) j) as [[i r]|] eqn:E; [|discriminate]. subst r.
+    apply nth_error_In in E. destruct (getby_intervals_spec g bins i (Some g') E) as (a & b & _ & Hs & _).
+    symmetry in Hs. destruct (select_pred_spec g _ g' W Hs) as (_ & W' & R' & _). auto.
+  - destruct (g_restrict_spec g ep W Hok) as (g'' & Hg & W' & R' & _). rewrite Hg in H. inversion H; subst. auto.
+  - destruct (Z_lt_le_dec b a) as [Hlt|Hle]; [rewrite (g_get_inverted g a b Hlt) in H; discriminate|].
+    destruct (g_get_spec g a b W R Hle) as (g'' & Hg & W' & R' & _). rewrite Hg in H. inversion H; subst. auto.
+  - destruct (roundtrip_spec g W R) as (g'' & Hg & W' & R' & _). rewrite Hg in H. inversion H; subst. auto.
+  - destruct (select_mask g m1) as [ga|] eqn:E1; [|discriminate]. destruct (select_mask g m2) as [gb|] eqn:E2; [|discriminate].
+    destruct (select_mask_spec g m1 ga E1) as [_ H1]. destruct (select_mask_spec g m2 gb E2) as [_ H2].
+    destruct (select_keys_spec g _ ga W H1) as (Wa & _). destruct (select_keys_spec g _ gb W H2) as (Wb & _).
+    destruct (merge_group_spec [ga; gb] ri rs im g' ltac:(simpl; lia) ltac:(apply Forall_two; assumption) H) as (W' & R' & _). auto.
+  - destruct Hok as [Wo Ro]. destruct first.
+    + destruct (merge_group_spec [g; other] ri rs im g' ltac:(simpl; lia) ltac:(apply Forall_two; assumption) H) as (W' & R' & _). auto.
+    + destruct (merge_group_spec [other; g] ri rs im g' ltac:(simpl; lia) ltac:(apply Forall_two; assumption) H) as (W' & R' & _). auto.
+Qed.
+
+Lemma step_total_invariant g o : WFg g -> Rg g -> op_ok o -> WFg (step_total g o) /\ Rg (step_total g o).
+Proof.
+  intros W R Hok. unfold step_total. destruct (step g o) as [g'|] eqn:E; [|auto].
+  eapply step_invariant; eassumption.
+Qed.
+
+Theorem run_invariant ops : forall g, WFg g -> Rg g -> Forall op_ok ops -> WFg (run g ops) /\ Rg (run g ops).
+Proof.
+  induction ops as [|o r IH]; intros g W R Hok; [simpl; auto|].
+  inversion Hok; subst. unfold run. simpl. fold (run (step_total g o) r).
+  destruct (step_total_invariant g o W R) as [W' R']; [assumption|]. apply IH; assumption.
+Qed.
+
+Theorem trace_invariant ops : forall g, WFg g -> Rg g -> Forall op_ok ops ->
+  Forall (fun r => match r with Some g' => WFg g' /\ Rg g' | None => True end) (trace g ops).
+Proof.
+  induction ops as [|o r IH]; intros g W R Hok; [constructor|].
+  inversion Hok; subst. simpl. constructor.
+  - destruct (step g o) as [g'|] eqn:E; [|exact I]. eapply step_invariant; eassumption.
+  - destruct (step_total_invariant g o W R) as [W' R']; [assumption|]. apply IH; assumption.
+Qed.
+
+(* what the invariants say of a state, in the words of the property *)
+Theorem invariants_meaning g : WFg g -> Rg g ->
+  incr (g_keys g) /\ canonical (g_sup g)
+  /\ (forall e, In e (g_entries g) ->
+        sortedZ (m_t (e_mem e)) /\ Forall (fun x => mem x (g_sup g) = true) (m_t (e_mem e))
+        /\ (m_t (e_mem e) <> [] -> rate (e_mem e) = Some (length (m_t (e_mem e)), tot_length (g_sup g)) /\ 0 < tot_length (g_sup g))).
+Proof.
+  intros W R. destruct W as (Hinc & Hc & Hwf). split; [exact Hinc|]. split; [exact Hc|].
+  intros e He. pose proof R as R0. unfold Rg in R. rewrite Forall_forall in Hwf, R.
+  split; [apply (Hwf e He)|]. split; [apply (R e He)|].
+  intros Hn. destruct (group_rate g e Hc R0 He Hn). auto.
+Qed.
+
+(* provenance through selections, restrict, get and the round trip: every member of the result is the
+   member of the same key in the source, thinned to the samples satisfying some predicate *)
+Definition derives (g g' : group) : Prop :=
+  forall e', In e' (g_entries g') ->
+    exists e P, In e (g_entries g) /\ e_key e' = e_key e /\ m_t (e_mem e') = filter P (m_t (e_mem e)).
+
+Lemma derives_refl g : derives g g.
+Proof. intros e He. exists e, (fun _ => true). split; [exact He|]. split; [reflexivity|].
+  symmetry. apply filter_all. apply Forall_forall. reflexivity. Qed.
+
+Lemma derives_trans g1 g2 g3 : derives g1 g2 -> derives g2 g3 -> derives g1 g3.
+Proof.
+  intros H12 H23 e3 H3. destruct (H23 e3 H3) as (e2 & P2 & H2 & K2 & T2).
+  destruct (H12 e2 H2) as (e1 & P1 & H1 & K1 & T1).
+  exists e1, (fun x => P1 x && P2 x). split; [exact H1|]. split; [congruence|].
+  rewrite T2, T1. apply filter_filter.
+Qed.
+
+Definition simple_op (o : gop) : Prop :=
+  match o with
+  | OMergeWith _ _ _ _ _ => False
+  | OMergeSplit _ _ ri _ _ => ri = false
+  | ORestrict ep => canonical ep
+  | _ => True
+  end.
+
+Lemma derives_restricted g g' (Q : entry -> Prop) : WFg g ->
+  (forall e', In e' (g_entries g') -> exists e, In e (g_entries g) /\ e' = restrict_entry (g_sup g) e) ->
+  derives g g'.
+Proof.
+  intros (_ & Hc & Hwf) H e' He'. destruct (H e' He') as (e & He & ->).
+  rewrite Forall_forall in Hwf. exists e, (fun x => mem x (g_sup g)). split; [exact He|]. split; [reflexivity|].
+  apply ts_restrict_t; [apply (Hwf e He)|exact Hc].
+Qed.
+
+Theorem step_derives g o g' : WFg g -> Rg g -> simple_op o -> step g o = Some g' -> derives g g'.
+Proof.
+  intros W R Hs H.
+  assert (Sel : forall keys g'', select_keys g keys = Some g'' -> derives g g'').
+  { intros keys g'' Hk. destruct (select_keys_spec g keys g'' W Hk) as (_ & _ & _ & _ & _ & _ & Hin).
+    apply (derives_restricted g g'' (fun _ => True) W). intros e' He'. apply Hin in He'. destruct He' as (e & He & _ & E). eauto. }
+  assert (Pred : forall p g'', select_pred g p = Some g'' -> derives g g'').
+  { intros p g'' Hp. unfold select_pred in Hp. destruct (g_hastag g); [|discriminate]. eapply Sel; exact Hp. }
+  destruct o as [keys|mask|thr op|c|bins j|ep|a b| |m1 m2 ri rs im|other first ri rs im]; cbn [step] in H; simpl in Hs.
+  - eapply Sel; exact H.
+  - destruct (select_mask_spec g mask g' H) as [_ H']. eapply Sel; exact H'.
+  - unfold getby_threshold in H. destruct ((0 <=? op) && (op <=? 3)); [|discriminate]. eapply Pred; exact H.
+  - unfold getby_category in H. destruct (existsb (fun e => e_tag e =? c) (g_entries g)); [|discriminate]. eapply Pred; exact H.
+  - destruct (nth_error (getby_intervals g bins) j) as [[i r]|] eqn:E; [|discriminate]. subst r.
+    apply nth_error_In in E. destruct (getby_intervals_spec g bins i (Some g') E) as (a & b & _ & Hp & _).
+    symmetry in Hp. eapply Pred; exact Hp.
+  - destruct (g_restrict_spec g ep W Hs) as (g'' & Hg & _ & _ & _ & _ & He & Ht). rewrite Hg in H. inversion H; subst g''.
+    intros e' He'. rewrite He in He'. apply in_map_iff in He'. destruct He' as (e & <- & Hin).
+    exists e, (fun x => mem x ep). split; [exact Hin|]. split; [reflexivity|].
+    rewrite Forall_forall in Ht. apply Ht. exact Hin.
+  - destruct (Z_lt_le_dec b a) as [Hlt|Hle]; [rewrite (g_get_inverted g a b Hlt) in H; discriminate|].
+    destruct (g_get_spec g a b W R Hle) as (g'' & Hg & _ & _ & _ & _ & He & Ht). rewrite Hg in H. inversion H; subst g''.
+    intros e' He'. rewrite He in He'. unfold map_members in He'. apply in_map_iff in He'. destruct He' as (e & <- & Hin).
+    exists e, (fun t => (a <=? t) && (t <=? b)). split; [exact Hin|]. split; [reflexivity|].
+    rewrite Forall_forall in Ht. apply (Ht e Hin).
+  - destruct (roundtrip_spec g W R) as (g'' & Hg & _ & _ & _ & Hin & _). rewrite Hg in H. inversion H; subst g''.
+    intros e' He'. apply Hin in He'. destruct He' as (e & He & _ & ->). exists e, (fun _ => true).
+    split; [exact He|]. split; [reflexivity|]. symmetry. apply filter_all. apply Forall_forall. reflexivity.
+  - subst ri. destruct (select_mask g m1) as [ga|] eqn:E1; [|discriminate]. destruct (select_mask g m2) as [gb|] eqn:E2; [|discriminate].
+    destruct (select_mask_spec g m1 ga E1) as [_ H1]. destruct (select_mask_spec g m2 gb E2) as [_ H2].
+    destruct (select_keys_spec g _ ga W H1) as (Wa & _). destruct (select_keys_spec g _ gb W H2) as (Wb & _).
+    pose proof (Sel _ _ H1) as Da. pose proof (Sel _ _ H2) as Db.
+    destruct (merge_group_spec [ga; gb] false rs im g' ltac:(simpl; lia) ltac:(apply Forall_two; assumption) H) as ((_ & Hc' & _) & _ & _ & _ & Hin & _).
+    intros e' He'. apply Hin in He'. destruct He' as (e & He & ->). unfold merge_items in He. simpl in He. rewrite app_nil_r in He.
+    assert (Hsrc : exists e0 P, In e0 (g_entries g) /\ e_key e = e_key e0 /\ m_t (e_mem e) = filter P (m_t (e_mem e0))
+                              /\ sortedZ (m_t (e_mem e))).
+    { apply in_app_or in He. destruct He as [He|He].
+      - destruct (Da e He) as (e0 & P & H0 & K0 & T0). exists e0, P. repeat split; try assumption.
+        destruct Wa as (_ & _ & Hw). rewrite Forall_forall in Hw. apply (Hw e He).
+      - destruct (Db e He) as (e0 & P & H0 & K0 & T0). exists e0, P. repeat split; try assumption.
+        destruct Wb as (_ & _ & Hw). rewrite Forall_forall in Hw. apply (Hw e He). }
+    destruct Hsrc as (e0 & P & H0 & K0 & T0 & S0).
+    exists e0, (fun x => P x && mem x (g_sup g')). split; [exact H0|]. split; [exact K0|].
+    unfold restrict_entry, e_mem at 1. cbn [snd]. rewrite ts_restrict_t by assumption. rewrite T0. apply filter_filter.
+  - contradiction.
+Qed.
+
+Theorem run_derives ops : forall g, WFg g -> Rg g -> Forall simple_op ops -> derives g (run g ops).
+Proof.
+  induction ops as [|o r IH]; intros g W R Hs; [apply derives_refl|].
+  inversion Hs as [|? ? Ho Hr]; subst. unfold run. simpl. fold (run (step_total g o) r).
+  assert (Hok : op_ok o) by (destruct o; simpl in *; auto; contradiction).
+  destruct (step_total_invariant g o W R Hok) as [W' R'].
+  eapply derives_trans; [|apply IH; assumption].
+  unfold step_total. destruct (step g o) as [g'|] eqn:E; [|apply derives_refl].
+  eapply step_derives; eassumption.
+Qed.
+
+(* ================================================================== *)
+(* 13. group-level count / trial_count / value_from are the members' own *)
+
+Theorem group_count_col g ep b : WFg g -> 0 < b -> canonical ep ->
+  g_count g ep b = map (fun e => (e_key e, count_spec (m_t (e_mem e)) ep b)) (g_entries g).
+Proof.
+  intros (_ & _ & Hwf) Hb Hc. unfold g_count. apply map_ext_in. intros e He.
+  rewrite Forall_forall in Hwf. rewrite count_binned_spec; [reflexivity|exact Hb|apply (Hwf e He)|exact Hc].
+Qed.
+
+Theorem group_count_ep_col g ep : WFg g -> canonical ep ->
+  g_count_ep g ep = map (fun e => (e_key e, map (fun iv => count_if (fun x => inb x iv) (m_t (e_mem e))) ep)) (g_entries g).
+Proof.
+  intros (_ & _ & Hwf) Hc. unfold g_count_ep. apply map_ext_in. intros e He.
+  rewrite Forall_forall in Hwf. rewrite restrict_cnt_spec; [reflexivity|apply (Hwf e He)|exact Hc].
+Qed.
+
+Theorem group_trial_count_member g ep b : WFg g -> 0 < b -> canonical ep ->
+  g_trial_count g ep b
+  = map (fun e => (e_key e, map (fun '(s, e') => map snd (count_spec_interval (m_t (e_mem e)) s e' b)) ep)) (g_entries g).
+Proof.
+  intros (_ & _ & Hwf) Hb Hc. unfold g_trial_count. apply map_ext_in. intros e He.
+  rewrite Forall_forall in Hwf. rewrite trial_count_rows_spec; [reflexivity|exact Hb|apply (Hwf e He)|exact Hc].
+Qed.
+
+Theorem group_value_from_member g mode src ep : WFg g -> canonical ep ->
+  g_value_from g mode src ep
+  = map (fun e => (e_key e, (filter (fun x => mem x ep) (m_t (e_mem e)), value_from mode (m_t (e_mem e)) src ep))) (g_entries g).
+Proof.
+  intros (_ & _ & Hwf) Hc. unfold g_value_from. apply map_ext_in. intros e He.
+  rewrite Forall_forall in Hwf. rewrite restrict_ts_spec; [reflexivity|apply (Hwf e He)|exact Hc].
+Qed.
+
+(* ================================================================== *)
+(* 14. merge_group as it is: with the metadata kept and the index not reset, groups whose keys do not
+   already increase along the concatenation cannot be merged                                        *)
+
+Definition wit1 : group := ([(5, (0, ([0; 1000], [(0, 2000)])))], ([(0, 2000)], false)).
+Definition wit2 : group := ([(0, (0, ([500], [(0, 2000)])))], ([(0, 2000)], false)).
+
+Theorem merge_total_refuted :
+  exists g1 g2, WFg g1 /\ Rg g1 /\ WFg g2 /\ Rg g2 /\ g_sup g1 = g_sup g2
+    /\ (forall k, In k (g_keys g1) -> ~ In k (g_keys g2))
+    /\ merge_group [g1; g2] false false false = None
+    /\ merge_group [g2; g1] false false false <> None
+    /\ merge_group [g1; g2] false false true <> None.
+Proof.
+  exists wit1, wit2.
+  assert (W1 : WFg wit1) by (unfold WFg, wit1; simpl; repeat split; try lia; repeat constructor; simpl; lia).
+  assert (W2 : WFg wit2) by (unfold WFg, wit2; simpl; repeat split; try lia; repeat constructor; simpl; lia).
+  assert (R1 : Rg wit1) by (unfold Rg, wit1, within, normal; simpl; repeat constructor).
+  assert (R2 : Rg wit2) by (unfold Rg, wit2, within, normal; simpl; repeat constructor).
+  split; [exact W1|]. split; [exact R1|]. split; [exact W2|]. split; [exact R2|].
+  split; [reflexivity|]. split; [simpl; intros k [<-|[]] [H|[]]; discriminate|].
+  split; [vm_compute; reflexivity|]. split; vm_compute; discriminate.
+Qed.
+
+(* the merge is defined as soon as the concatenated keys increase (or the metadata is dropped, or the index reset) *)
+Theorem merge_two_defined g1 g2 im :
+  WFg g1 -> WFg g2 -> g_hastag g1 = g_hastag g2 -> g_sup g1 = g_sup g2 ->
+  incr (g_keys g1 ++ g_keys g2) ->
+  exists g', merge_group [g1; g2] false false im = Some g'.
+Proof.
+  intros W1 W2 Ht Hs Hinc.
+  assert (E : merge_group [g1; g2] false false im =
+    if (im || forallb (fun g => Bool.eqb (g_hastag g) (g_hastag g1)) [g2])
+       && (false || disjoint_keys (g_keys g1) [g2])
+       && (false || forallb (fun g => sup_same (g_sup g1) (g_sup g)) [g2])
+    then if negb im && negb (incrb (map e_key (g_entries g1 ++ g_entries g2 ++ []))) then None
+         else regroup (g_entries g1 ++ g_entries g2 ++ []) (Some (g_sup g1)) false (if im then false else g_hastag g1)
+    else None) by reflexivity.
+  rewrite E. clear E. rewrite app_nil_r.
+  assert (Hk : map e_key (g_entries g1 ++ g_entries g2) = g_keys g1 ++ g_keys g2) by (rewrite map_app; reflexivity).
+  rewrite Hk. pose proof (incr_NoDup _ Hinc) as Hnd.
+  assert (E1 : forallb (fun g => Bool.eqb (g_hastag g) (g_hastag g1)) [g2] = true).
+  { simpl. rewrite Ht, Bool.eqb_reflx. reflexivity. }
+  assert (E2 : disjoint_keys (g_keys g1) [g2] = true).
+  { simpl. rewrite andb_true_r. apply negb_true_iff. destruct (existsb _ (g_keys g2)) eqn:Ex; [|reflexivity].
+    apply existsb_exists in Ex. destruct Ex as (k & Hk2 & Hk1). apply existsb_eqb_In in Hk1.
+    exfalso. clear -Hnd Hk1 Hk2. induction (g_keys g1) as [|x r IH]; [contradiction|].
+    simpl in Hnd. inversion Hnd; subst. destruct Hk1 as [->|Hk1]; [apply H1; apply in_or_app; auto|auto]. }
+  assert (E3 : forallb (fun g => sup_same (g_sup g1) (g_sup g)) [g2] = true).
+  { simpl. rewrite andb_true_r, <- Hs. unfold sup_same. apply orb_true_iff. left.
+    clear. induction (g_sup g1) as [|[s e] r IH]; simpl; [reflexivity|]. rewrite !Z.eqb_refl, IH. reflexivity. }
+  rewrite E1, E2, E3, orb_true_r. cbn [orb andb].
+  apply incrb_spec in Hinc. rewrite Hinc. cbn [negb]. rewrite andb_false_r.
+  eexists. apply regroup_some; [|reflexivity]. rewrite Hk. exact Hnd.
+Qed.
+
+(* ================================================================== *)
+(* 15. a non-dict iterable gets the keys 0 .. n-1, members in the order given *)
+Lemma conv_keys_enumerate {A} (l : list A) : forall n,
+  conv_keys (combine (map (fun i => RInt (Z.of_nat i)) (seq n (length l))) l)
+  = Some (combine (map Z.of_nat (seq n (length l))) l).
+Proof.
+  induction l as [|a r IH]; intros n; simpl; [reflexivity|]. rewrite IH. reflexivity.
+Qed.
+
+Lemma inc_from_seq m : forall k, inc_from (Z.of_nat k - 1) (map Z.of_nat (seq k m)).
+Proof.
+  induction m as [|m IH]; intros k; simpl; [exact I|]. split; [lia|].
+  replace (Z.of_nat k) with (Z.of_nat (S k) - 1) by lia. apply IH.
+Qed.
+
+Theorem group_list_keys l sup bypass ht g :
+  mk_group_list l sup bypass ht = Some g ->
+  g_keys g = map Z.of_nat (seq 0 (length l))
+  /\ map e_tag (g_entries g) = map fst l.
+Proof.
+  unfold mk_group_list. intros H. destruct (mk_group_inv _ _ _ _ _ H) as (kd & s & Hk & _ & _ & ->).
+  rewrite conv_keys_enumerate in Hk. inversion Hk; subst kd. clear Hk.
+  set (kd := combine (map Z.of_nat (seq 0 (length l))) l).
+  assert (Hfst : map fst kd = map Z.of_nat (seq 0 (length l))).
+  { unfold kd. apply map_fst_combine. rewrite map_length, seq_length. reflexivity. }
+  assert (Hsnd : map snd kd = l).
+  { unfold kd. apply map_snd_combine. rewrite map_length, seq_length. reflexivity. }
+  assert (Hinc : incr (map e_key (map (conv_entry sup) kd))).
+  { rewrite conv_entry_keys, Hfst. eapply inc_from_incr. apply (inc_from_seq (length l) 0%nat). }
+  rewrite (sort_entries_sorted_id _ Hinc).
+  assert (Htag : forall es, map e_tag (map (conv_entry sup) es) = map fst (map snd es)).
+  { intros es. rewrite !map_map. apply map_ext. intros d. reflexivity. }
+  unfold g_keys, g_entries. cbn [fst]. destruct bypass.
+  - rewrite conv_entry_keys, Hfst, Htag, Hsnd. auto.
+  - rewrite map_members_keys, conv_entry_keys, Hfst. split; [reflexivity|].
+    transitivity (map e_tag (map (conv_entry sup) kd)); [|rewrite Htag, Hsnd; reflexivity].
+    unfold map_members. rewrite !map_map. apply map_ext. intros d. reflexivity.
+Qed.
